@@ -535,6 +535,23 @@ theorem hook_quiet_create (xrd : Xrd) (accept : Crd → Bool) (w : World) (hq : 
       obtain ⟨h1, h2⟩ := dryRunCreate_abs accept crds w hq (hnew crds hc)
       exact ⟨_, by simp only []; rw [h1], h2⟩
 
+/-! ## the reconcilers that write the CRDs -/
+
+/-- After a successful pass of the definition / offered reconciler the stored CRD IS the CRD derived
+from the current XRD, whatever was stored before (the CRD of an earlier state with a conversion
+webhook, short names, more categories, labels, annotations, versions): nothing is left over,
+nothing is missing - so every theorem above about `derive` holds of what the cluster serves. -/
+theorem reconcile_stores_derived (w : Which) (xrd : Xrd) (stored : Option Crd) (c : Crd)
+    (h : reconcileStep w xrd stored = .ok c) : derive w xrd = .ok c := by
+  unfold reconcileStep at h
+  cases hd : derive w xrd with
+  | error e => rw [hd] at h; cases h
+  | ok d =>
+    rw [hd] at h
+    cases stored with
+    | none => simpa using h
+    | some s => simpa [serverUpdate] using h
+
 /-! ## the hypotheses are satisfiable (non-vacuity) -/
 
 /-! `exXrd` (Model/C11): two versions; the first one's schema declares `spec.claimRef` and
@@ -589,5 +606,13 @@ example : (runE (hookSem fun _ => true) (scriptEnv [(3, .create "databases.examp
 /-- the server refuses the claim CRD: refused, whatever else happens -/
 example : (runE (hookSem fun c => c.scope != "Namespaced") Env.none Plan.allOk 0 (hookUpdate exXrd exXrd) exWorld).2
       = some (.rejected "claim" .invalid) := by decide
+
+/-- the statement separates Update from a merge patch: with the CRD of an earlier state that had a
+conversion webhook stored, a merge patch of the CRD derived now keeps the retired webhook -/
+example : ∃ cur old, derive .xr exXrd = .ok cur ∧
+    derive .xr { exXrd with conversion := some ⟨"Webhook", true, true, "{}"⟩ } = .ok old ∧
+    (reconcileStep .xr exXrd (some old)).toOption.map (·.conversion) = some none ∧
+    (serverMergePatch old cur).conversion ≠ cur.conversion := by
+  refine ⟨_, _, rfl, rfl, ?_, ?_⟩ <;> decide
 
 end Xp.C11
